@@ -32,6 +32,7 @@ pub fn dispatch(args: &[String]) -> i32 {
         "C16" => crate::examples::check(&tier),
         "replay" => crate::replay::replay(&args[1..]),
         "sched-worker" => crate::sched::worker_main(&args[1..]),
+        "sched-scan" => crate::sched::scan(&args[1..]),
         "selfcheck" => selfcheck(),
         x => { eprintln!("unknown command {}", x); 2 }
     }
@@ -98,7 +99,7 @@ fn selfcheck() -> i32 {
     let mut bad = 0u64;
     for fam in all_families() {
         let cnt = fam.count().min(4000);
-        let vars = match fam { Fam::Sp { .. } => variants_sp(), Fam::Kp { .. } => variants_kp(), Fam::TmIrr { .. } => variants_irr(), _ => variants_ca() };
+        let vars = match fam { Fam::Sp { .. } => variants_sp(), Fam::Kp { .. } | Fam::Kpz { .. } => variants_kp(), Fam::TmIrr { .. } => variants_irr(), _ => variants_ca() };
         for idx in 0..cnt {
             for var in vars.iter() {
                 let m = fam.build(idx, *var);
@@ -112,7 +113,33 @@ fn selfcheck() -> i32 {
 }
 
 fn plan(name: &str, variants: Vec<Variant>, rotate: bool, cfgs: &[Cfg], mode: Mode, limit: Option<u64>) -> Plan {
-    Plan { fam: family(name), variants, rotate, cfgs: cfgs.to_vec(), mode, record: true, limit }
+    Plan { fam: family(name), variants, rotate, cfgs: cfgs.to_vec(), mode, record: true, limit, par1: false }
+}
+
+/// plans run by the PARALLEL solver with one worker (deterministic): bounded-exhaustive over inputs x configurations
+pub fn par1_plans(th: bool, mode: Mode, cache_only: bool) -> Vec<Plan> {
+    let mut c3 = Cfg::full(&W3);
+    if cache_only { c3.retain(|c| c.cache); }
+    let sp: Vec<Variant> = variants_sp().into_iter().filter(|v| !v.la).collect();
+    let mk = |name: &str, variants: Vec<Variant>, rotate: bool, limit: Option<u64>| Plan { fam: family(name), variants, rotate, cfgs: c3.clone(), mode, record: true, limit, par1: true };
+    let heavy = mode != Mode::Plain;
+    let mut p = vec![
+        mk("TM-0b", variants_ca(), true, None),
+        mk("TM-B4", variants_ca(), true, Some(if th { 16384 } else if heavy { 600 } else { 3000 })),
+        mk("TM-N0.1", variants_ca(), true, None),
+        mk("TM-N1.1", variants_ca(), true, None),
+        mk("SP-3", sp.clone(), true, None),
+        mk("SP-4", sp.clone(), true, Some(if th { 5184 } else if heavy { 300 } else { 1500 })),
+        mk("KP-3", variants_kp(), true, Some(if th { 5103 } else if heavy { 500 } else { 5103 })),
+        mk("KP-4", variants_kp(), true, Some(if th { 45927 } else if heavy { 500 } else { 6000 })),
+    ];
+    if th { p.push(mk("TM-N2.1", variants_ca(), true, None)); p.push(mk("TM-N3.1", variants_ca(), true, None)); p.push(mk("KP-5", variants_kp(), true, Some(if heavy { 5000 } else { 60000 }))); }
+    p
+}
+pub fn par1_cov(agg: &Agg, scopes: Vec<Value>, complete: bool) -> Value {
+    json!({"what": "the real ParallelSolver with ONE worker (deterministic, no scheduler needed) over bounded-exhaustive input families x configurations; a run which does not return within 10 s is a hang",
+           "scopes": scopes, "complete": complete, "runs": agg.runs, "runs_with_2+_subproblems": agg.nontrivial, "cutoff_runs": agg.cut_runs, "primal_runs": agg.primal_runs, "hangs": agg.hangs,
+           "cache_hits": agg.cache_hits, "dominance_prunings": agg.dom_pruned, "monitor_hits_all_properties": agg.monitor_hits})
 }
 
 fn cov_common(agg: &Agg, scopes: Vec<Value>, complete: bool) -> Value {
@@ -160,6 +187,8 @@ fn plans_c01(thorough: bool, mode: Mode) -> Vec<Plan> {
         plan("SP-4", variants_sp(), false, &c3, mode, None),
         plan("KP-2", variants_kp(), false, &full, mode, None),
         plan("KP-3", variants_kp(), true, &full, mode, None),
+        plan("KPZ-3", variants_kp(), false, &c3, mode, None),
+        plan("KPZ-4", variants_kp(), true, &c3, mode, None),
     ];
     if thorough {
         p.push(plan("TM-A", variants_ca(), false, &c3, mode, Some(100_000)));
@@ -242,8 +271,10 @@ fn c05(tier: &str) -> i32 {
     let plans = plans_c05(th, &Cfg::full(&W4), &Cfg::full(&W3));
     let (agg, scopes, complete) = run_plans(&rep, &["C05"], &plans, deadline(&rep, 40, 1200));
     let (par_cov, par_ok) = crate::sched::c05_parallel_part(&rep);
-    let mut cov = cov_common(&agg, scopes, complete && par_ok);
-    cov["evaluations"] = json!(agg.cut_runs);
+    let (a1, s1, c1) = run_plans(&rep, &["C05"], &par1_plans(th, Mode::Cutoffs, false), deadline(&rep, 12, 600));
+    let mut cov = cov_common(&agg, scopes, complete && par_ok && c1);
+    cov["parallel_single_worker_part"] = par1_cov(&a1, s1, c1);
+    cov["evaluations"] = json!(agg.cut_runs + a1.cut_runs);
     cov["distinct_nontrivial"] = json!(agg.cut_nontrivial);
     cov["rule"] = json!("sequential part (fault enumeration): for every (instance, variant, configuration) of the scopes the uninterrupted run gives K = number of cut-off polls; then for EVERY k in 1..=K a fresh solver is run with a cut-off answering stop from poll k on; oracle: lb <= optimum <= ub (optimum = -inf when infeasible: then no value may be reported), reported solution feasible with value == lb, is_exact only if the value is the optimum; non-trivial = the cut-off fired after >= 1 sub-problem had been popped and the run is inexact; parallel part: see parallel_part");
     cov["parallel_part"] = par_cov.clone();
@@ -287,7 +318,9 @@ fn c09(tier: &str) -> i32 {
     }
     let (agg, scopes, complete) = run_plans(&rep, &["C09"], &plans, deadline(&rep, 40, 1200));
     let (par_cov, par_ok) = crate::sched::c09_parallel_part(&rep);
-    let mut cov = cov_common(&agg, scopes, complete && par_ok);
+    let (a1, s1, c1) = run_plans(&rep, &["C09"], &par1_plans(th, Mode::Plain, false), deadline(&rep, 12, 600));
+    let mut cov = cov_common(&agg, scopes, complete && par_ok && c1);
+    cov["parallel_single_worker_part"] = par1_cov(&a1, s1, c1);
     cov["evaluations"] = json!(agg.runs);
     cov["distinct_nontrivial"] = json!(agg.cache_twin_diff_explored);
     cov["rule"] = json!("sequential part: re-convergent families (butterfly tables, depth-free states, seeds neighbourhoods) x model variants x FULL diagram x fringe x width, SimpleCache vs EmptyCache twins: both must equal the oracle with a feasible solution, the twins must agree, and the recording cache wrapper checks the contract (depths in range); different rankings and the two fringes induce different processing orders; non-trivial = twin pairs in which the cache changed the number of explored sub-problems (i.e. a threshold really pruned something); parallel part: see parallel_part (cache operations outside critical sections are scheduling points)");
@@ -318,7 +351,9 @@ fn c14(tier: &str) -> i32 {
     }
     let (agg, scopes, complete) = run_plans(&rep, &["C14"], &plans, deadline(&rep, 40, 1200));
     let (par_cov, par_ok) = crate::sched::c14_parallel_part(&rep);
-    let mut cov = cov_common(&agg, scopes, complete && par_ok);
+    let (a1, s1, c1) = run_plans(&rep, &["C14"], &par1_plans(th, Mode::Primal, false), deadline(&rep, 15, 600));
+    let mut cov = cov_common(&agg, scopes, complete && par_ok && c1);
+    cov["parallel_single_worker_part"] = par1_cov(&a1, s1, c1);
     cov["evaluations"] = json!(agg.primal_runs);
     cov["distinct_nontrivial"] = json!(agg.primal_below_opt);
     cov["rule"] = json!("for every instance of the scopes and EVERY achievable objective value p (with the oracle's witness solution): set_primal(p, witness) [followed by a second set_primal with the next lower value, which must not replace it] then maximize(): is_exact, value == max(p, optimum), solution feasible for that value; set_primal semantics in isolation (cut-off at the first poll): equal value keeps the first solution; non-trivial = runs whose primal is strictly below the optimum (the solver must still find the optimum)");
@@ -348,6 +383,14 @@ fn c15(tier: &str) -> i32 {
         plans.push(plan("SP-5", la_sp, true, &c3, m, None));
     }
     let (agg, scopes, complete) = run_plans(&rep, &["C15"], &plans, deadline(&rep, 45, 1200));
+    let (par_cov, par_ok) = crate::sched::c15_parallel_part(&rep);
+    let mut cov = cov_common(&agg, scopes, complete && par_ok);
+    cov["evaluations"] = json!(agg.runs);
+    cov["distinct_nontrivial"] = json!(agg.nontrivial);
+    cov["parallel_part"] = par_cov;
+    cov["rule"] = json!("sequential part: depth-free table models x ALL irrelevance patterns with <= 3 irrelevant (layer, state) pairs, and set packing models whose is_impacted_by skips states not containing the vertex; every instance x variants x FULL diagram (pooled = long arcs, LEL/frontier = every state expanded on every variable) x cache x fringe x widths; oracle: terminates within the fuel bound, same value as the DP oracle (hence pooled == plain), solution feasible after default completion; non-trivial = runs with >= 2 sub-problems; parallel part: long-arc instances x pooled/frontier configurations, 1-3 workers, all schedules within the pre-emption bound (see parallel_part)");
+    return rep.finish("exploration", cov, vec!["a skipped variable takes the neutral default decision 0 (cost 0, state unchanged)".to_string(), "oracles: backward DP / subset enumeration; finite families only".to_string()]);
+    #[allow(unreachable_code)]
     finish(&rep, "exploration", &agg, scopes, complete, agg.runs, agg.nontrivial,
         "depth-free table models x ALL irrelevance patterns with <= 3 (seeds) / <= 3 (butterfly) irrelevant (layer, state) pairs, and set packing models whose is_impacted_by skips states not containing the vertex; every instance x variants x FULL diagram (pooled = long arcs, LEL/frontier = every state expanded on every variable) x cache x fringe x widths; oracle: terminates within the fuel bound, same value as the DP oracle (hence pooled == plain), solution feasible after default completion; non-trivial = runs with >= 2 sub-problems",
         &["a skipped variable takes the neutral default decision 0 (cost 0, state unchanged)"])
